@@ -511,7 +511,7 @@ def count_lines(case):
 
 def run(tier: str, seed: int) -> Result:
     silence_labtech()
-    cases = ['pickle-small', 'json-small', 'pickle-blob', 'pickle-nonascii', 'json2-small'] + (['pickle-multi'] if tier == 'quick' else ['pickle-multi', 'json-multi'])
+    cases = ['pickle-small', 'json-small', 'pickle-blob', 'pickle-nonascii', 'json2-small', 'two-multi'] + (['pickle-multi'] if tier == 'quick' else ['pickle-multi', 'json-multi'])
     viols = []
     n_states = n_cached = 0
     tops = []
@@ -601,7 +601,7 @@ def run(tier: str, seed: int) -> Result:
         'evaluations': n_states + n_kills + n_same + n_main,
         'distinct_nontrivial': n_states,
         'rule': ('crash states = every prefix of the raw-operation log (mkdir/open-trunc/write/close/unlink/rmdir/rename) of a real save + every subset of a run of unlinks in one directory + 3 torn variants per write + flushed variant per '
-                 'Python-level write call; x {pickle small, json small, pickle multi-frame (+json multi thorough)} x {first save, overwrite; pickle small / multi also: save over a complete entry that another cache class with the same key prefix wrote, judged by observers of either class}; each materialised and '
+                 'Python-level write call; x {pickle small, json small, pickle multi-frame (+json multi thorough), a cache format that keeps a multi-frame result in two files} x {first save, overwrite; pickle small / multi also: save over a complete entry that another cache class with the same key prefix wrote, judged by observers of either class}; each materialised and '
                  'checked by the recovery oracle (is_cached, cached_tasks, run_tasks on a fresh Lab); real SIGKILLs of a forked saver at traced lines must leave one '
                  'of the prefix states; plus histories on ONE Lab object over the real fork backend (cache, look at the cache through the Lab or not, re-run with bust_cache whose worker SIGKILLs itself at save line k, then ask the same Lab), and the same history with a task type defined in the main script on the real spawn / fork backends; '
                  'distinct_nontrivial = materialised crash states'),
